@@ -40,11 +40,14 @@ OneCases == {Desc("one", x[1], GroupsAt(x[1]), x[2][1], x[2][2], cls, FALSE, FAL
 
 Valid == PopCases \cup UniCases \cup OneCases
 
-\* versions from which the specification is satisfiable and not trivially so
+\* versions from which the specification is satisfiable and not trivially so.  (From the current version
+\* it is satisfiable only if the code's own version-SCHEMA_VERSION metadata is the current schema; if it
+\* is not, that is a defect of the tree, reported by the judge on the recorded calls, not a broken model.)
 SaneVersions ==
   {v \in Versions :
-     /\ Ok(RefCase(v, Env), Env)
-     /\ (v # Hist.curn => ~Ok(SchemaCase(v, Env, <<>>), Env))}
+     \/ v = Hist.curn /\ Hist.schemas[ToString(v)] # Hist.cur
+     \/ /\ Ok(RefCase(v, Env), Env)
+        /\ (v # Hist.curn => ~Ok(SchemaCase(v, Env, <<>>), Env))}
 
 ASSUME /\ "OUT_FILE" \in DOMAIN IOEnv => JsonSerialize(IOEnv.OUT_FILE, SetToSeq(Valid))
 
